@@ -114,3 +114,65 @@ pub fn gen_float<T: Display>(tag_name: &str, value: T) -> String {
 pub fn gen_int<T: Display>(tag_name: &str, value: T) -> String {
     format!("<{tag_name} type=\"Integer\">{value}</{tag_name}>\n")
 }
+
+/// Upper limit for the nesting depth of XML elements.
+/// The XML parser works recursively, a deeply nested document must not exhaust the stack.
+const MAX_XML_DEPTH: usize = 256;
+
+fn find_after(bytes: &[u8], start: usize, pattern: &[u8]) -> usize {
+    let mut i = start;
+    while i + pattern.len() <= bytes.len() {
+        if &bytes[i..i + pattern.len()] == pattern {
+            return i + pattern.len();
+        }
+        i += 1;
+    }
+    bytes.len()
+}
+
+/// Checks that the elements of an XML document are not nested too deeply before it is parsed.
+/// Comments, CDATA sections, processing instructions and quoted attribute values are skipped.
+pub fn check_depth(xml: &str) -> Result<()> {
+    let bytes = xml.as_bytes();
+    let mut depth: usize = 0;
+    let mut i = 0;
+    while i < bytes.len() {
+        if bytes[i] != b'<' {
+            i += 1;
+        } else if bytes[i..].starts_with(b"<!--") {
+            i = find_after(bytes, i + 4, b"-->");
+        } else if bytes[i..].starts_with(b"<![CDATA[") {
+            i = find_after(bytes, i + 9, b"]]>");
+        } else if bytes[i..].starts_with(b"<?") {
+            i = find_after(bytes, i + 2, b"?>");
+        } else if bytes[i..].starts_with(b"<!") {
+            i = find_after(bytes, i + 2, b">");
+        } else if bytes[i..].starts_with(b"</") {
+            depth = depth.saturating_sub(1);
+            i = find_after(bytes, i + 2, b">");
+        } else {
+            // Start tag, look for its end outside of quoted attribute values
+            let mut quote: Option<u8> = None;
+            let mut j = i + 1;
+            while j < bytes.len() {
+                match quote {
+                    Some(q) if bytes[j] == q => quote = None,
+                    Some(_) => {}
+                    None if bytes[j] == b'"' || bytes[j] == b'\'' => quote = Some(bytes[j]),
+                    None if bytes[j] == b'>' => break,
+                    None => {}
+                }
+                j += 1;
+            }
+            let self_closing = j < bytes.len() && bytes[j - 1] == b'/';
+            if !self_closing {
+                depth += 1;
+                if depth > MAX_XML_DEPTH {
+                    Error::invalid("XML elements are nested too deeply")?
+                }
+            }
+            i = j + 1;
+        }
+    }
+    Ok(())
+}
